@@ -1938,13 +1938,14 @@ def c19_oracle(script, rec):
     for (o, tab, prec, dfmt, text) in ws:
         nt = norm_tokens(text)
         if ref is None:
-            ref = (nt, (o, tab, prec, dfmt))
+            ref = (nt, (o, tab, prec, dfmt), text)
         elif nt != ref[0]:
             d = first_diff(ref[0], nt)
             cls = ""
-            if "E" in (d[1], d[2]) and (o & 32):
+            etext, eo = (ref[2], ref[1][0]) if d[1] == "E" else (text, o)
+            if "E" in (d[1], d[2]) and (eo & 32):
                 # a %g rendering that rounds above DBL_MAX is not a literal the documentation accepts (finding F1b of C01)
-                for mm in re.finditer(rb"[-+]?[0-9]+(?:\.[0-9]*)?[eE][-+]?[0-9]+", text):
+                for mm in re.finditer(rb"[-+]?[0-9]+(?:\.[0-9]*)?[eE][-+]?[0-9]+", etext):
                     try:
                         if float(mm.group(0)) in (float("inf"), float("-inf")):
                             cls = " [class F1b: the %g rendering rounds above DBL_MAX]"
